@@ -53,6 +53,23 @@ def tree_sx(t):
     return '(%s %s %s (%s))' % (dopts_sx(t['opts']), psec(t['pre']), msec(t['meta']), ' '.join(chg(c) for c in t['changes']))
 
 
+def changed_sections(a, b):
+    """Names of the sections (main, cI, fI.J) whose snapshot differs between two snapshots of one tree."""
+    out = []
+
+    def sec(x):
+        return json.dumps({k: v for k, v in x.items() if k not in ('changes', 'files')}, sort_keys=True, default=repr)
+    if sec(a) != sec(b):
+        out.append('main')
+    for ci, (ca, cb) in enumerate(zip(a['changes'], b['changes'])):
+        if sec(ca) != sec(cb):
+            out.append('c%d' % ci)
+        for fi, (fa, fb) in enumerate(zip(ca['files'], cb['files'])):
+            if sec(fa) != sec(fb):
+                out.append('f%d.%d' % (ci, fi))
+    return out
+
+
 def has_mixed_keys(x):
     if isinstance(x, dict):
         ks = list(x.keys())
@@ -519,6 +536,10 @@ def gen_stats_tree(rng):
             counts = None
             if kind in ('text', 'binary', 'unparsable'):
                 enc = rng.choice([None, None, 'utf-8', 'latin-1', 'ascii', 'utf-8-sig', 'utf-16', 'utf-16-le', 'utf-32-be'])
+                if rng.random() < 0.12:
+                    # codecs the model does not execute (the comparison is discarded, the counts oracle still applies):
+                    # some keep CR/LF as ASCII but spell the diff markers differently, some are stateful
+                    enc = rng.choice(['utf-7', 'mac_arabic', 'cp037', 'cp500', 'iso2022_jp', 'hz', 'shift_jis', 'koi8-r', 'utf-16-be'])
                 le = rng.choice([None, 'unix', 'dos'])
                 nlk = le or rng.choice(['unix', 'dos'])
                 hs = [fh.gen_hunk(rng) for _ in range(rng.randint(1, 3))]
@@ -762,6 +783,9 @@ def run_ops_impl(ops):
                     setattr(resolve(trees[o[1]], o[2]), o[3], sl.pyval(o[4]))
                 elif n == 'meta_put':
                     resolve(trees[o[1]], o[2]).meta[o[3]] = sl.py_json(o[4])
+                elif n == 'meta_nested_put':
+                    # in-place edit of a NESTED value of one section's metadata
+                    resolve(trees[o[1]], o[2]).meta[o[3]][o[4]] = sl.py_json(o[5])
                 elif n == 'opt_put':
                     obj = resolve(trees[o[1]], o[2])
                     sec = {'self': obj, 'pre': getattr(obj, 'preamble_section', None), 'meta': getattr(obj, 'meta_section', None),
@@ -805,7 +829,10 @@ ATTRS_FILE = ['encoding', 'meta', 'meta_encoding', 'meta_format', 'diff', 'diff_
 CANDIDATES = [None, {'s': 'utf-8'}, {'s': 'utf-16'}, {'s': 'unix'}, {'s': 'dos'}, {'s': 'mac'}, {'s': 'text/plain'},
               {'s': 'text/html'}, {'s': 'json'}, {'s': 'yaml'}, {'s': 'text'}, {'s': 'binary'}, {'s': '1.0'}, {'s': '2.0'},
               {'s': 'hello\n'}, {'s': ''}, {'i': 0}, {'i': 4}, {'i': -1}, {'bool': True}, {'bool': False}, {'b': '2d610a'},
-              {'b': ''}, {'d': {'k': 1}}, {'d': {}}, 'other']
+              {'b': ''}, {'d': {'k': 1}}, {'d': {}}, 'other',
+              # near misses of the allowed choices: parameters, case, padding
+              {'s': 'text/plain; format=flowed'}, {'s': 'text/markdown; variant=GFM'}, {'s': 'text/plain;charset=utf-8'},
+              {'s': 'Text/Plain'}, {'s': 'unix '}, {'s': 'DOS'}, {'s': 'json\n'}, {'s': 'utf-8\x00'}, {'s': ' binary'}]
 def _sample_files():
     import io as _io
     from pydiffx.writer import DiffXWriter
@@ -824,6 +851,17 @@ def _sample_files():
     w.new_file()
     w.write_meta({'p': 2})
     w.write_diff(b'-a\n+b\n')
+    out.append(st.getvalue())
+    # two files of one change (and a file of another change) whose metadata carry EQUAL nested maps under the same key
+    st = _io.BytesIO()
+    w = DiffXWriter(st)
+    w.new_change()
+    for name in ('a', 'b'):
+        w.new_file()
+        w.write_meta({'path': name, 'revision': {'old': 'r1', 'new': 'r2'}, 'tags': {'k': 'v'}})
+    w.new_change()
+    w.new_file()
+    w.write_meta({'path': 'c', 'revision': {'old': 'r1', 'new': 'r2'}})
     out.append(st.getvalue())
     return out
 
@@ -920,6 +958,13 @@ class Alias(Family):
             'value-level model; non-trivial = at least two trees alive and one mutation; distinct by operation list')
 
     def cases(self, tier, rng, prop_id):
+        # parsed trees whose sections carry equal nested metadata: an in-place edit of one nested value changes that
+        # section only (not a sibling file, not the other change, not a second parse of the same bytes)
+        shared = SAMPLE_FILES[-1].hex()
+        for (ci, fi, key, sub) in [(0, 0, 'revision', 'new'), (0, 1, 'revision', 'old'), (1, 0, 'revision', 'new'), (0, 0, 'tags', 'k')]:
+            yield dict(kind='ops', ops=[['parse', shared], ['parse', shared], ['to_bytes', 0], ['to_bytes', 1],
+                                        ['meta_nested_put', 0, ['f', ci, fi], key, sub, 'edited'],
+                                        ['to_bytes', 0], ['to_bytes', 1], ['eq', 0, 1]])
         for i in range(400 if tier == 'quick' else 8000):
             ops = gen_ops(rng, rng.randint(8, 20))
             if i % 4 == 0:
@@ -941,6 +986,8 @@ class Alias(Family):
 
     def model_line(self, c):
         obs, steps, orc = self._impl(c)
+        if any(o[0] == 'meta_nested_put' for o in c['ops']):
+            return None         # nested in-place edits: judged by the frame oracle alone
         if has_mixed_keys(c['ops']):
             # a dictionary with an int key next to a str key: equal to its reordering, yet not serialisable (the keys cannot
             # be sorted); the value-level model has no such value, so these cases are judged by the oracles alone
@@ -968,8 +1015,16 @@ class Alias(Family):
         for k, (o, (res, snaps)) in enumerate(zip(c['ops'], steps)):
             n = o[0]
             target = o[1] if n not in ('new', 'parse') else None
+            if n == 'meta_nested_put' and res != '(exc)' and target < len(prev) and target < len(snaps):
+                # inside the target tree only the addressed section's metadata may differ
+                changed = changed_sections(prev[target], snaps[target])
+                want = 'main' if o[2] == 'main' else ('c%d' % o[2][1] if o[2][0] == 'c' else 'f%d.%d' % (o[2][1], o[2][2]))
+                extra = [x for x in changed if x != want]
+                if extra:
+                    out.append(('C18', 'aliasing', 'op %d: editing %s.meta[%r][%r] in place also changed %s of the same tree'
+                                % (k, want, o[3], o[4], ', '.join(extra))))
             for j in range(min(len(prev), len(snaps))):
-                if j == target and n in ('add_change', 'add_file', 'set', 'meta_put', 'opt_put', 'stats') and res != '(exc)':
+                if j == target and n in ('add_change', 'add_file', 'set', 'meta_put', 'meta_nested_put', 'opt_put', 'stats') and res != '(exc)':
                     continue
                 if skey(prev[j]) != skey(snaps[j]):
                     if n in ('to_bytes', 'eq'):
